@@ -180,13 +180,45 @@ Theorem C14_err_type : forall b, scrub (FOther b) = Err TypeError.
 Proof. exact scrub_other_alone. Qed.
 Theorem C14_err_selfref : scrub FSelfRef = Err ValueError.
 Proof. exact scrub_selfref_alone. Qed.
+(* unknown name: no member, no rgb()/color256() string and no code - a code being, with the surrounding
+   blanks stripped, a non-empty string of decimal digits (as repaired, F37; before, the last hypothesis
+   was "parse_int s = None", i.e. whatever Python's int() takes was a code) *)
 Theorem C14_err_unknown_name : forall s, part_ok s -> s <> [] -> member_texts (norm_name s) = None ->
-  parse_rgb_string s = RNoMatch -> parse_int s = None -> scrub (FStr s) = Err ValueError.
+  parse_rgb_string s = RNoMatch ->
+  negb (is_nil (strip_ws s)) && forallb is_digit (strip_ws s) = false -> scrub (FStr s) = Err ValueError.
 Proof. exact scrub_unknown_name. Qed.
 Theorem C14_err_bad_rgb : forall s, part_ok s -> member_texts (norm_name s) = None ->
   parse_rgb_string s = RBad -> scrub (FStr s) = Err ValueError.
 Proof. exact scrub_bad_rgb. Qed.
 Print Assumptions C14_err_unknown_name.
+
+(* ---------- an integer directive is made of decimal digits (repair F37) ----------
+   Inside a ';'-separated string, a part that is neither a member name nor an rgb()/color256() string with
+   convertible numbers and whose stripped text is not a non-empty string of decimal digits makes the
+   directive list fail with ValueError, wherever it stands: no sign ("+1", "-0", "-3"), no digit grouping
+   ("1_0"), no non-ASCII digit, all of which Python's int() would have taken ... *)
+Theorem C14_directive_is_decimal : forall pre f post, f <> [] -> member_texts (norm_name f) = None ->
+  (forall ts, parse_rgb_string f <> RTexts ts) ->
+  negb (is_nil (strip_ws f)) && forallb is_digit (strip_ws f) = false ->
+  scrub_names (pre ++ f :: post) = Err ValueError.
+Proof. exact scrub_names_lenient_int_rejected. Qed.
+Print Assumptions C14_directive_is_decimal.
+(* ... while blanks, decimal digits (leading zeros allowed), blanks are the integer the digits spell *)
+Theorem C14_directive_decimal_value : forall w1 d w2,
+  forallb is_ws w1 = true -> forallb is_digit d = true -> d <> [] -> forallb is_ws w2 = true ->
+  scrub (FStr (w1 ++ d ++ w2)) = OK [dec (Z.of_N (DecProofs.dval d 0))] /\
+  scrub (FStr (w1 ++ d ++ w2)) = scrub (FInt (Z.of_N (DecProofs.dval d 0))).
+Proof. exact scrub_padded_code. Qed.
+Print Assumptions C14_directive_decimal_value.
+Example C14_directive_is_decimal_example :
+  Forall (fun s => scrub_names [s] = Err ValueError /\ scrub (FStr s) = Err ValueError)
+         [S_ "1_0"; S_ "+1"; S_ "-3"; S_ "-0"; [65297%N]] /\
+  scrub_names [S_ " 31 "] = OK [SInt 31] /\ scrub_names [S_ "007"] = OK [SInt 7] /\
+  scrub (FStr (S_ "1; 31 ;007")) = OK [S_ "1"; S_ "31"; S_ "7"] /\ scrub (FStr (S_ "1;1_0")) = Err ValueError.
+Proof.
+  split; [repeat (apply Forall_cons; [split; vm_compute; reflexivity|]); apply Forall_nil|].
+  repeat split; vm_compute; reflexivity.
+Qed.
 
 (* non-vacuity *)
 Example C14_example :
